@@ -52,6 +52,77 @@ ERRORS = {
     'svg': [b'<svg><path d="M0 0', b'<svg><!-- c', b'<svg><style>a{', b'<svg><script>var a = ;</script></svg>'],
     'xml': [b'<a b="c', b'<!-- c', b'<a><![CDATA[x', b'<?xml', b'<a>b'],
 }
+# short representative documents, one token kind after the other; every prefix of each is an input, so that the input
+# ends in every distinct lexer / minifier state (C14), and so that outputs LONGER than the input occur (a minifier
+# completes an unterminated construct: `a{b:c` -> `a{b:c}`, `<p>a<br` -> `<p>a<br>`) for the Bytes/String helpers
+TRUNC = {
+    'svg': [b'<?xml version="1.0"?><svg><g id="a"/></svg>',
+            b'<svg><path d="M0 0"/></svg><?pi href="a"?> ',
+            b'<svg><!-- c --><style>a{b:c}</style></svg>',
+            b'<svg><![CDATA[ x ]]><text> a </text></svg>',
+            b'<!DOCTYPE svg [<!ENTITY a "b">]><svg/>',
+            b'<svg a=\'b\' c="d"><metadata>x</metadata></svg>',
+            b'<svg><style><![CDATA[a{b:c}]]></style></svg>',
+            b'<svg xmlns:x="y"><x:a b="c"/><rect x="1px"/></svg>',
+            b'<svg><script>var a = 1;</script><a/></svg>',
+            b'<svg style="a:b" fill="#ffffff"> <g> </g> </svg>'],
+    'xml': [b'<?xml version="1.0"?><a b="c"> d </a>',
+            b'<a><!-- c --><![CDATA[ x ]]></a><?pi x?>',
+            b'<!DOCTYPE a [<!ENTITY b "c">]><a/>',
+            b'<a b=\'c\' d="e&amp;f"><b/> t </a >',
+            b'<a> <b> x </b> <?p q?> </a>',
+            b'<a><![CDATA[]]><![CDATA[ <b> ]]> y</a>',
+            b'<!DOCTYPE a SYSTEM "x.dtd"><a>&lt;</a>',
+            b'<a  b = "c" ><!----> <c/> </a>'],
+    'html': [b'<!doctype html><p class="a b" id=x>t</p>',
+             b'<a href=\'x\' title="y">z</a><!-- c -->',
+             b'<script>var a = "b";</script><p>x',
+             b'<style>a{b:c}</style><pre> x </pre>',
+             b'<textarea> a </textarea><br/><![CDATA[x]]>',
+             b'<svg><path d="M0 0"/></svg><math><mi>x</mi></math>',
+             b'<p>a &amp; b</p><input value="c" disabled>',
+             b'<?php x ?><div style="a:b" onclick="c()">d</div>',
+             b'<title> t </title><iframe>x</iframe>',
+             b'<ul><li>a<li>b</ul><select><option>c</select>',
+             b'<!--[if IE]><p>x</p><![endif]--><b> y </b>',
+             b'<a href="data:text/css,a{b:c}">x</a>'],
+    'css': [b'a{b:c;d:"e";f:url(g.png)}',
+            b'/* c */@media x{a{b:c}}',
+            b'@import "a.css";a[b="c"]{d:e}',
+            b'a{b:rgb(1,2,3);c:calc(1px + 2px)}',
+            b'a>b,c+d{e:f!important}/*! k */',
+            b'@font-face{a:b}a::after{content:\'\\n\'}',
+            b'a{b:url( "x y" );c:#ffffff;d:1.0e2px}',
+            b'<!-- a{b:c} -->',
+            b'@charset "utf-8";@x y{z}',
+            b'a{b:c d,e f;g:U+0-7F;--h:{i}}'],
+    'js': [b'var a = "b", c = \'d\', e = `f${g}h`;',
+           b'/* c */ a = /re[/]/g; // d',
+           b'function f(a){return a+1}f(2)',
+           b'if(a){b()}else{c()}for(;;){}',
+           b'a = {b: 1, "c": [2, 3]}; a?.b',
+           b'class A extends B{c(){}}',
+           b'x = a ? b : c; y = 1.0e3; z = 0x1F',
+           b'label: while(a) break label;',
+           b'a => {b}; async () => await c',
+           b'#!/bin/x\na <!-- b\n--> c',
+           b'try{a}catch(e){b}finally{c}'],
+    'json': [b'{"a": [1, 2.0e1, true, null], "b": "c\\"d"}',
+             b'[ {"a":{}}, [], "\\u00e9", -0.5 ]',
+             b'  "string"  ', b'123', b'{"a":false}'],
+}
+
+
+def prefixes(docs):
+    seen, out = set(), []
+    for d in docs:
+        for k in range(1, len(d) + 1):
+            if d[:k] not in seen:
+                seen.add(d[:k])
+                out.append(d[:k])
+    return out
+
+
 BENCH = {'css': ['sample_normalize.css'], 'html': ['sample_blogpost.html'], 'js': ['sample_dot.js'],
          'json': ['sample_twitter.json'], 'svg': ['sample_gopher.svg'], 'xml': ['sample_books.xml', 'sample_catalog.xml']}
 BENCH_THOROUGH = {'css': ['sample_fontawesome.css'], 'html': ['sample_bbc.html'], 'js': ['sample_moment.js'],
@@ -98,7 +169,8 @@ def bench_inputs(ctx):
 MON = ['MonitorQuiet', 'MonitorFinal']
 MUTANTS = [('nodelcl', ['ContentLengthGone', 'MonitorFinal']), ('nowait', ['CloseWaits', 'NoWriteAfterClose'] + MON), ('noerr', ['CloseWaits', 'FaultSurfaces', 'NoSilentTruncation'] + MON),
            ('noprobe', ['FaultSurfaces', 'NoSilentTruncation']), ('extfirst', ['SelectionRule', 'ChunkingInvariance'] + MON),
-           ('eofswallow', ['FaultSurfaces', 'NoSilentTruncation'] + MON)]
+           ('eofswallow', ['FaultSurfaces', 'NoSilentTruncation'] + MON),
+           ('addinside', ['CloseWaits', 'ChunkingInvariance', 'NoWriteAfterClose'] + MON)]
 
 
 def model_check_jobs(ctx, tier, mutants):
@@ -137,7 +209,13 @@ def model_check_jobs(ctx, tier, mutants):
         m = re.search(r'(\d+) states checked, (\d+) traces generated', r['out'])
         return dict(design_simulated_traces=int(m.group(2)) if m else 0, design_simulated_states=int(m.group(1)) if m else 0)
 
-    jobs = [('main', main)] + ([('sim', sim)] if tier == 'thorough' else [])
+    def empty():
+        # empty input: the partitions "no Write call at all" and "one empty Write" (Close can be the first call)
+        r = vlib.tlc(ctx, 'Stream', 'Stream_empty.cfg', workers=2, timeout=900, heap='3g')
+        ok(r, 'Stream_empty.cfg')
+        return dict(design_states_empty_input=r['distinct'], design_transitions_empty_input=r['generated'])
+
+    jobs = [('main', main), ('empty', empty)] + ([('sim', sim)] if tier == 'thorough' else [])
     jobs += [('mut_' + n, mut(n, e)) for n, e in mutants]
     return jobs
 
@@ -264,7 +342,7 @@ class Builder:
 
 def identity(c):
     """identifying fields of a session (what a replay needs)"""
-    d = {k: c[k] for k in ('mode', 'mt', 'reg', 'chunks', 'rbufs', 'pace', 'ff', 'sf', 'short', 'serr', 'gate', 'after', 'ct',
+    d = {k: c[k] for k in ('mode', 'mt', 'reg', 'chunks', 'rbufs', 'pace', 'ff', 'sf', 'short', 'serr', 'gate', 'after', 'rep', 'ct',
                            'uri', 'cl', 'wh', 'status') if k in c and c[k] not in (None, '', [], False)}
     d['in'] = bytes(c['in']).decode('latin1')
     return d
@@ -444,8 +522,33 @@ def make_cases(ctx, inits, cuts, suite, bench, profile):
                     c['chunks'] = []
                 B.add(**c)
     n_seeded = len(B.cases) - n_init - n_exh
+    # (4) every prefix of the representative documents through Bytes and String (outputs longer than the input occur:
+    #     the helpers size their output buffer from the input), and a sample through the other entry points
+    for t in ORDER:
+        docs = list(TRUNC[t]) + ([] if quick else [x for x in suite[t] if len(x) <= 200])
+        for j, p in enumerate(prefixes(docs)):
+            reg = REGS[j % 3]
+            B.add(mode='bytes', mt=mt_for(t, reg, rnd, params=False), reg=reg, chunks=[], tag='prefix:' + t, **{'in': p})
+            B.add(mode='string', mt=mt_for(t, reg, rnd, params=False), reg=reg, chunks=[], tag='prefix:' + t, **{'in': p})
+            if j % (6 if quick else 3) == 0:
+                mode = ['writer', 'reader', 'mw'][(j // 3) % 3]
+                c = dict(mode=mode, reg=reg, chunks=rand_partition(len(p), rnd), tag='prefix:' + t, mt=mt_for(t, reg, rnd, params=False))
+                if mode == 'mw':
+                    c.update(resp_fields(t, reg, rnd, 'K1', 'K1'))
+                    c.update(mt='', cl=len(p), wh=rnd.choice(['no', 'first']))
+                B.add(**c, **{'in': p})
+    n_prefix = len(B.cases) - n_init - n_exh - n_seeded
+    # (5) Close as the FIRST call on the wrapper (empty input, no Write call at all), many rounds, with and without the
+    #     gate, with a healthy and a failing sink: Close must wait for a worker that may not even have started yet
+    for t in ORDER:
+        for r in range(24 if quick else 150):
+            reg = REGS[r % 3]
+            B.add(mode='writer', mt=mt_for(t, reg, rnd, params=False), reg=reg, chunks=[], tag='closefirst:' + t, rep=r,
+                  gate=(r % 2 == 0), ff=(1 if r % 3 == 0 else 0), after=(r % 5 == 0), **{'in': b''})
+    n_first = len(B.cases) - n_init - n_exh - n_seeded - n_prefix
     stats = dict(sessions_from_initial_states=n_init, sessions_exhaustive_partitions=n_exh,
-                 sessions_seeded_partitions=n_seeded, short_inputs_exhausted=exh_inputs,
+                 sessions_seeded_partitions=n_seeded, sessions_prefix_family=n_prefix, sessions_close_first=n_first,
+                 short_inputs_exhausted=exh_inputs,
                  initial_states_enumerated=len(inits), initial_states_used=len(chosen))
     return B.cases, stats
 
@@ -791,7 +894,7 @@ def run(ctx):
     inits, cuts, rg = gen.result()
     phase(ctx, 'generated')
     # ---- MC (runs concurrently with the real sessions and their validation)
-    futs = [(n, pool.submit(f)) for n, f in model_check_jobs(ctx, 'quick' if quick else 'thorough', MUTANTS[:2] + MUTANTS[4:5] if quick else MUTANTS)]
+    futs = [(n, pool.submit(f)) for n, f in model_check_jobs(ctx, 'quick' if quick else 'thorough', MUTANTS[:2] + MUTANTS[4:5] + MUTANTS[6:7] if quick else MUTANTS)]
     cases, stats = make_cases(ctx, inits, cuts, suite, bench, profile)
     pinned = vlib.known_cases(PID)
     for p in pinned:
@@ -828,11 +931,15 @@ def run(ctx):
         if n == 'main':
             ctx.mc['states'] += info['design_states']
             ctx.mc['transitions'] += info['design_transitions']
+        if n == 'empty':
+            ctx.mc['states'] += info['design_states_empty_input']
+            ctx.mc['transitions'] += info['design_transitions_empty_input']
         ctx.coverage.update(info)
     pool.shutdown()
     phase(ctx, 'MC collected')
     # ---- evidence
     nontrivial = set()
+    grows = 0
     events = 0
     modes = {}
     samples = []
@@ -842,6 +949,8 @@ def run(ctx):
         modes[s['mode']] = modes.get(s['mode'], 0) + 1
         ref = s['want'] if s['mode'] not in ('response', 'mw', 'mwerr') else (s['wct'] if s['ct'] else s['wxt'])
         multi = len([x for x in c.get('chunks', []) if True]) > 1 or c['mode'] in ('bytes', 'string')
+        if s['mode'] in ('bytes', 'string') and ref['e'] == 'nil' and ref['n'] > s['inn']:
+            grows += 1
         if ref['e'] == 'nil' and ref['h'] != s['inh'] and multi:
             nontrivial.add(vlib.case_key(identity(c)))
         if len(samples) < 5 and c['id'] % 997 == 3:
@@ -854,6 +963,7 @@ def run(ctx):
         d['events'] = [e['k'] for e in json.loads(lines[0])['ev']][:40]
         samples.append(d)
     ctx.coverage.update(stats)
+    ctx.coverage['helper_sessions_output_longer_than_input'] = grows
     ctx.coverage['design_drift'] = dict(DRIFT)   # event orders that the design model does not allow (information only)
     ctx.coverage.update(dict(
         traces_validated_against_impl=accepted,
